@@ -81,6 +81,11 @@ TEXT = {
   level_text="Generated sequences of configurations that all retain one address and key are hot-reloaded in the real main package (executor process) while hammering clients connect and send datagrams with the retained key and pre-existing relays in generated states wait; the oracle is over the whole history: no refusal or reset, exactly one generation handles each connection/datagram, the retained key authenticates throughout, relays finish byte-for-byte.",
   level_note="Timing of connections relative to reloads is sampled by hammering; the evidence counts how many connections overlapped a reload.",
  ),
+ "C14": dict(
+  technique="property-based testing (rapid): deadline-algebra histories on the NAT entry with a recording fake socket (in-package executor), and generated concurrent client scripts in real time on real sockets",
+  level_text="Generated write/reply/pause histories check every deadline the NAT entry sets against t0+timeout (17 s for DNS), monotonicity and the single permitted fast close; generated batches of concurrent clients with DNS and non-DNS scripts check, on real sockets, liveness before the promised instant (sound lower bounds), removal exactly once, release of the outbound port, fast close, the 17 s promise under a short configured timeout and reclamation at shutdown.",
+  level_note="The in-package executor uses only identifiers the repository's own udp_test.go uses; real-time checks use generous upper bounds; 'eventually reclaimed' means within 2-3 s.",
+ ),
 }
 def _na():
     from checks_table import CHECKS
